@@ -250,6 +250,77 @@ fn weak_callbacks(n: usize, sym_shape: bool) {
     cover(2);
 }
 
+/// W3: a helper object owned through an UNTRACED field of a cycle member. The collector does not know it: it is released by a
+/// plain (nested) Cc::drop while the collector destroys the cycle, and its finalizer / destructor upgrades a Weak to a cycle member.
+fn weak_helper() {
+    for i in 0..3 {
+        new_node(i);
+    }
+    // 0 <-> 1 (optionally only one direction: then it is a chain released by reference counting)
+    set_slot(0, 0, 1);
+    if any_below(2) == 1 {
+        set_slot(1, 0, 0);
+    }
+    let owner = any_below(2) as usize;
+    set_untraced(owner, 2);
+    let target = any_below(2) as usize;
+    if let (Some(h), Some(t)) = (handle(2), handle(target)) {
+        *h.wslot() = Some(t.downgrade());
+        w().wedge[2] = target as u8;
+    }
+    for i in 0..2 {
+        if let Some(h) = handle(i) {
+            w().w[i] = Some(h.downgrade());
+        }
+    }
+    w().fin_act[2] = if any_below(2) == 1 { F_UPGRADE_STASH } else { F_NONE };
+    w().drop_act[2] = if any_below(2) == 1 { D_UPGRADE } else { D_NONE };
+    w().drop_act[0] = if any_below(2) == 1 { D_TEMP } else { D_NONE };
+    // already finalized helper or not: finalize_again is not needed, just let a first collection process it while it is alive
+    for i in 0..3 {
+        if any_below(2) == 1 {
+            clone_h(i);
+            drop_h2(i);
+        }
+    }
+    oracle_weak(100);
+    drop_h(2); // the helper is now owned only through the untraced field
+    oracle_safety(150);
+    for i in 0..2 {
+        if any_below(2) == 1 {
+            drop_h(i);
+            oracle_safety(200);
+            oracle_rc(200);
+            oracle_weak(200);
+        }
+    }
+    collect_quiescent(4, 300);
+    oracle_safety(300);
+    oracle_rc(300);
+    oracle_weak(300);
+    cover(1);
+    for i in 0..MAXN {
+        if w().stash[i].is_some() && any_below(2) == 1 {
+            drop_stash(i);
+            oracle_safety(400);
+            oracle_weak(400);
+        }
+    }
+    for i in 0..2 {
+        drop_h(i);
+    }
+    collect_quiescent(4, 500);
+    oracle_safety(500);
+    oracle_rc(500);
+    oracle_weak(500);
+    cover(2);
+}
+
+#[no_mangle]
+pub fn h_weak_helper() {
+    weak_helper();
+}
+
 #[no_mangle]
 pub fn h_weak_prog_n2() {
     weak_program(2, true);
